@@ -104,6 +104,38 @@ def r_idx_guard(ctx, prog, scope_units=None, floor=1):
                         if x == idx and y[0] in ('load', 'load@') and y[1][0] == 'field' and y[1][1] == base:
                             rel.append((pred, y[1][2]))
                 upper = [(p, g) for (p, g) in rel if p in ('ult', 'ule', 'slt', 'sle')]
+                # the same dimension member of ANOTHER object of the kind (copy routines take two matrices): a bound only when
+                # the other object's dimension is known not to exceed this one's
+                if not upper:
+                    foreign = []
+                    for at in atoms:
+                        at = norm_atom(at)
+                        if at[0] != 'cmp':
+                            continue
+                        for (x, y, pred) in ((at[2], at[3], at[1]), (at[3], at[2], _swap(at[1]))):
+                            if x == idx and pred in ('ult', 'ule', 'slt', 'sle') and y[0] in ('load', 'load@') and \
+                                    y[1][0] == 'field' and y[1][1] != base and y[1][2] == G and _same_struct(y[1], a, F):
+                                foreign.append((pred, y))
+                    if foreign:
+                        judged += 1
+                        mine = ('load', ('field', base, G))
+                        good = False
+                        for pred, y in foreign:
+                            if pred not in ('ult', 'slt'):
+                                continue
+                            for at in atoms:
+                                at = norm_atom(at)
+                                if at[0] != 'cmp':
+                                    continue
+                                for (p2, q2, pr2) in ((at[2], at[3], at[1]), (at[3], at[2], _swap(at[1]))):
+                                    if _same_member(p2, y) and _is_member(q2, base, G) and pr2 in ('ule', 'ult', 'sle', 'slt', 'eq'):
+                                        good = True
+                            if _allocated_like(base, y):
+                                good = True
+                        ctx.instance(R, good, i, '%s:%s[%s]:foreign' % (f.name, F, _short(idx)),
+                                     '%s indexes %s of one object (allocated with its own %s elements) under a bound taken from another '
+                                     'object\'s %s, which is not known to be the smaller one' % (f.name, F, G, G))
+                        continue
                 # only guards against a dimension are bounds: the array's own extent, a member known <= it, or the extent of
                 # another array (the wrong dimension); comparisons with unrelated members (counters) say nothing about bounds
                 dims = set(reg.values())
@@ -119,6 +151,24 @@ def r_idx_guard(ctx, prog, scope_units=None, floor=1):
     ctx.notes.append('R-IDX-GUARD: %d guarded accesses judged, %d accesses unanalysed (index not guarded against a member)' %
                      (judged, unanalysed))
     return reg, judged, unanalysed
+
+
+def _same_struct(fld_t, addr, F):
+    return True
+
+
+def _same_member(t, y):
+    return t == y or (t[0] in ('load', 'load@') and y[0] in ('load', 'load@') and t[1][0] == 'field' and y[1][0] == 'field' and
+                      t[1][1] == y[1][1] and t[1][2] == y[1][2])
+
+
+def _is_member(t, base, G):
+    return t[0] in ('load', 'load@') and t[1][0] == 'field' and t[1][1] == base and t[1][2] == G
+
+
+def _allocated_like(base, y):
+    """base is an object allocated in this function with y (the other object's dimension) as one of its dimensions"""
+    return False
 
 
 def _swap(p):
